@@ -284,9 +284,9 @@ func SeqMain(args []string) {
 // StartSequential launches the sequential enumeration in worker processes; the returned function waits for them
 // and merges the result into the evidence.
 func StartSequential(run *ev.Run) (wait func()) {
-	depth, shards, dl := 5, 4, 70
+	depth, shards, dl := 6, 4, 70
 	if ev.Tier() == "thorough" {
-		depth, shards, dl = 7, 8, 900
+		depth, shards, dl = 8, 8, 900
 	}
 	exe, _ := os.Executable()
 	results := make([]SeqResult, shards)
@@ -345,5 +345,9 @@ func StartSequential(run *ev.Run) (wait func()) {
 		if !agg.Exhaustive {
 			run.Set("exhaustive", false)
 		}
+		run.Set("sequential.bound", fmt.Sprintf("every sequence of <= %d operations {acquire(slot 0/1), finish(slot, 6 outcomes), update epoch once} for 4 configurations (2 providers; 3 providers; 2 providers with second-chance timers expiring at once; 2 providers with virtual epoch 1); max CU 20, relay CU 10", depth))
+		run.Assume("closed system: pre-made endpoint connections over one idle never-dialled grpc.ClientConn and a stub RelayerClient (Probe succeeds at once), deterministic stub ProviderOptimizer (first eligible provider of a fixed preference order), nil metrics manager (lava's NoOpConsumerMetrics), BlockEndpointError not injected (it would force a real dial)")
+		run.Assume("goroutines that only call the no-op metrics manager or the stub optimizer's Append* run at their spawn point (they commute with every step); `<-time.After(3min)` second-chance timers never expire within an execution (except harness H6 and one sequential configuration, where they may expire at any point); the 30 s reconnect ticker never ticks; probeProviders waits inline for its probes (its context is never cancelled); Go map iteration order pinned to insertion order rotated by a harness parameter (0, 1)")
+		run.Assume("a session counts as held from the return of GetSessions to the call of OnSessionDone/OnSessionDoneIncreaseCUOnly/OnSessionFailure; a failed relay is retried with the same UsedProviders, a successful one starts a new request; 'can serve' in the blocking clause = in the valid list, not excluded by the request's own used/unwanted set, used CU + 10 <= max x (virtual epoch + 1)")
 	}
 }
